@@ -51,12 +51,12 @@ add("C04",
     "DESIGN.md §5 C04", bounded="index")
 
 add("C05",
-    "Proved: Parse/parseJSON and all nine type parsers return (object,nil) or (nil,error) (result shape) with every nil-dereference / index / type-assertion obligation on the modelled paths discharged; loop measures for the whitespace loop and every counted loop under contract; recursion measures for the compressed-index searches, ringContainsRing and Circle.Contains/Intersects; nil-guard obligations of Empty/Rect/Valid/NumPoints of all leaf kinds and collections. Every contract function's safety obligations (bounds, nil, division) are part of its proof. NOT proved: termination of the mutual recursion Parse<->parseJSON<->sub-parsers (bounded by input nesting; gjson is an assumed dependency), Line.ContainsLine (trusted; known hang F3 found by the bounded lineline suite), polynomial time.",
+    "Proved: Parse/parseJSON and all nine type parsers return (object,nil) or (nil,error) (result shape) with every nil-dereference / index / type-assertion obligation on the modelled paths discharged; loop measures for the whitespace loop and every counted loop under contract; recursion measures for the compressed-index searches, ringContainsRing and Circle.Contains/Intersects; nil-guard obligations of Empty/Rect/Valid/NumPoints of all leaf kinds and collections. Every contract function's safety obligations (bounds, nil, division) are part of its proof. Termination of the recursion cycle Parse -> parseJSON -> parseJSONFeature/GeometryCollection/FeatureCollection -> Parse is proved with lexicographic measures over the text length (relative to A-GJSON: a member's raw text is strictly shorter than its parent's). NOT proved: Line.ContainsLine (trusted; known hang F3 found by the bounded lineline suite), recursion through interface dispatch (ForEach/Contains over the object tree: axiom ATree), polynomial time.",
     "Partial. gjson/pretty/sjson/rtree are external assumed contracts (A-GJSON, A-RTREE). parseJSONLineStringCoords/parseJSONPolygonCoords trusted. The bounded lineline suite (watchdog per call) stands in for Line.ContainsLine termination and reports F3 as a known finding.",
     "DESIGN.md §5 C05", bounded="lineline,index")
 
 add("C08",
-    "Proved: toGeometryOpts maps ParseOptions to index options only; RequireValid: Parse/parseJSON return a valid object under RequireValid for Point, SimplePoint, LineString, Polygon, Rect, MultiPoint, MultiLineString, MultiPolygon (parseJSONMultiPoint fully under contract incl. frames - this is the obligation that failed before fix 3b4853f); the Circle recognition path of parseJSONFeature is under contract for both point representations. NOT proved: that index options change no observable (follows informally from C04/C10 protocol contracts, no relational two-run statement is generated), RequireValid through Feature/GeometryCollection/FeatureCollection (needs a two-state frame over the object tree).",
+    "Proved: toGeometryOpts maps ParseOptions to index options only; RequireValid: Parse/parseJSON return a valid object under RequireValid for Point, SimplePoint, LineString, Polygon, Rect, MultiPoint, MultiLineString, MultiPolygon (parseJSONMultiPoint fully under contract incl. frames - this is the obligation that failed before fix 3b4853f); the Circle recognition path of parseJSONFeature is under contract for both point representations. Index independence is carried by the protocol contracts that this check also discharges (compressed segment searches and number codec of C04, collection.Search on both paths and parseInitRectIndex of C10: callers see only the set-based protocol); no relational two-run statement is generated. RequireValid through Feature/GeometryCollection/FeatureCollection (needs a two-state frame over the object tree).",
     "Partial: single-run postconditions only; the relational (two ParseOptions, same document) reading of the property is not expressible as one function contract in this framework. parse*Coords helpers trusted.",
     "DESIGN.md §5 C08")
 
@@ -66,8 +66,8 @@ add("C09",
     "DESIGN.md §5 C09")
 
 add("C10",
-    "Proved for all collections (any number/kind of children, nested, empty children): collection.Search linear path reports exactly the non-empty children whose rectangle meets the query, once, early stop; Intersects/Contains/Within* equal the property's composition laws (recursive folds over children and ForEach parts); Empty/Rect/NumPoints/Valid; parseInitRectIndex establishes pempty/prect/tree (CollInv) incl. the single-child branch and the index threshold; constructors NewGeometryCollection/NewFeatureCollection/NewMultiPoint establish CollInv; ForEach protocols of all kinds.",
-    "The R-tree path of collection.Search is skipped (closure inside extern rtree.Search; A-RTREE: Insert/Search of github.com/tidwall/rtree assumed). Axioms: AFrameKid (writes to the collection under construction do not change its children's models - needs induction over object-tree depth), A*Point/Rect/Line/Poly/Obj (children's predicates imply rectangle overlap: consequence of the geometry contracts for leaves). NewMultiLineString/NewMultiPolygon not under contract.",
+    "Proved for all collections (any number/kind of children, nested, empty children): collection.Search reports exactly the non-empty children whose rectangle meets the query, once, early stop - on BOTH paths: the linear scan, and the child R-tree path (nested iteration protocol: the forwarding literal maps tree items to child indices; relative to the assumed contract of github.com/tidwall/rtree Search/Insert); Intersects/Contains/Within* equal the property's composition laws (recursive folds over children and ForEach parts); Empty/Rect/NumPoints/Valid; parseInitRectIndex establishes pempty/prect/tree (CollInv) incl. the single-child branch and the index threshold; constructors NewGeometryCollection/NewFeatureCollection/NewMultiPoint establish CollInv; ForEach protocols of all kinds.",
+    "A-RTREE: github.com/tidwall/rtree is not verified: extern contracts for Insert (adds the item, count+1) and Search (reports exactly the items whose box meets the query), axiom ARTreeBuilt (a fresh tree that received every non-empty child and whose item count equals their number holds exactly those). Axioms: AFrameKid (writes to the collection under construction do not change its children's models - needs induction over object-tree depth), A*Point/Rect/Line/Poly/Obj (children's predicates imply rectangle overlap: consequence of the geometry contracts for leaves). NewMultiLineString/NewMultiPolygon not under contract.",
     "DESIGN.md §5 C10")
 
 add("C11",
